@@ -8,7 +8,7 @@
 From Coq Require Import List ZArith Bool String.
 From MV Require Import Serde.Escape Serde.EscapeProofs Serde.Lexer Serde.LexerProofs Serde.Parse Serde.ParseProofs.
 From MV Require Import Serde.ParseTokProofs Serde.ParseConstProofs Serde.ParseAtomProofs Serde.ParseToyProofs.
-From MV Require Import Term.Expr Term.Atom Term.PrintInjProofs.
+From MV Require Import Term.Expr Term.Atom Term.AtomPrintProofs Term.PrintInjProofs.
 Import ListNotations.
 Open Scope Z_scope.
 
@@ -265,3 +265,12 @@ Proof.
   split; [|vm_compute; reflexivity]. vm_compute. intro H. discriminate H.
 Qed.
 Print Assumptions map_order_round_trip_refuted.
+
+(* a variable named like one of the keywords Package / Use / Decl (C08's var_valid accepts it) is a
+   keyword token: the printed atom is not a term - hence [var_lex_valid] in parse_print_atom *)
+Theorem keyword_variable_refuted :
+  var_valid (bs "Use") = true /\ var_lex_valid (bs "Use") = false /\
+  parse_term_all (fun _ => None)
+    (print_atom (fun _ => []) (fun _ => []) (fun _ => []) (new_atom (bs "p") [TVar (bs "Use")])) = PErr.
+Proof. split; [vm_compute; reflexivity|]. split; vm_compute; reflexivity. Qed.
+Print Assumptions keyword_variable_refuted.
